@@ -296,10 +296,6 @@ func run(pc *propCfg, id, tier string, seed uint64, budget, nw int, replayFile, 
 		}
 	}
 	sort.Slice(viols, func(i, j int) bool { return viols[i].Key < viols[j].Key })
-	if len(agg.DetMismatch) > 0 {
-		fmt.Fprintf(os.Stderr, "NONDETERMINISM: %d of %d re-executed runs differed, e.g. %s\n", len(agg.DetMismatch), agg.DetChecked, agg.DetMismatch[0])
-		return 2
-	}
 	// verify + classify violations
 	known := loadKnown()
 	exit := 0
@@ -353,6 +349,16 @@ func run(pc *propCfg, id, tier string, seed uint64, budget, nw int, replayFile, 
 		id, tier, agg.Runs, agg.NonTrivial, len(sigs), agg.Steps, nViol, len(lines), wall)
 	if exit == 0 && agg.Runs == 0 {
 		fatal2("no run was executed")
+	}
+	if len(agg.DetMismatch) > 0 {
+		// re-executed runs that differ: process-wide state leaks from one run
+		// into the next (in the harness, or introduced by the tree under test).
+		// Without a violation that is harness trouble; with one, the violation
+		// (verified by replay in a fresh process) stands.
+		fmt.Fprintf(os.Stderr, "NONDETERMINISM: %d of %d re-executed runs differed, e.g. %s\n", len(agg.DetMismatch), agg.DetChecked, agg.DetMismatch[0])
+		if exit == 0 {
+			return 2
+		}
 	}
 	if len(died) > 0 && exit == 0 {
 		// nothing explains why workers died: harness trouble, not a verdict
